@@ -149,7 +149,7 @@ class C15(Prop):
     assumptions = ["a reader that raises any exception has 'raised an error' (the statement does not fix its type)",
                    "the step budget counts executed lines of the tokenizer / parser modules only",
                    "must-raise is asserted only for EDIF dangling references and inserted unsupported constructs"]
-    runs = {"quick": 2500, "thorough": 40000}
+    runs = {"quick": 5000, "thorough": 60000}
 
     def configure(self, rng, tier):
         r = rng
